@@ -62,6 +62,14 @@ CHECKS = {
    text="All 2520 combinations of sysctl value, directory mode/owner, link owner, caller (incl. real != effective uid) and link position are enumerated with the real fs.protected_symlinks set; the emulated backend and the openat2 backend are compared with the kernel's own openat2(RESOLVE_IN_ROOT) issued as the same user on the same tree.",
    note="Temporarily changes the system-wide sysctl (lock file, restored by guard / signal handler / next run); finite space, enumerated completely.",
    technique="exhaustive differential testing against the kernel over a finite parameter product"),
+ "C16": dict(level="exploration", ref="DESIGN.md §3 C16",
+   text="1-16 free-running threads execute generated histories of failing C calls (14 error kinds), consumption, cross-thread hand-off, double reads and reads of non-ids against a harness-side model that is always a subset of what the library must hold; every id is checked for range, freshness, exactly-once retrieval and errno; plus tens of thousands of ids held alive at once for pairwise distinctness.",
+   note="Stress with a schedule-independent oracle: interleavings are the OS scheduler's, not enumerated; an id range wrong on a tiny slice of draws is beyond sampling.",
+   technique="model-based property testing of a concurrent history with a schedule-independent oracle (proptest + real threads)"),
+ "C17": dict(level="exploration", ref="DESIGN.md §3 C17",
+   text="Complete enumeration of every C function x every single invalid-argument class (and the valid call), complete enumeration of readlink body lengths 1..64 x buffer sizes 0..len+3 and NULL with canary pages and a PROT_NONE guard page flush behind the buffer; sampled long bodies / sizes and multi-invalid calls. Checks error id range, errno, no side effects, descriptor table.",
+   note="Each case in its own process (a crash is a verdict); procfs link lengths start above the sandbox prefix.",
+   technique="exhaustive enumeration plus property-based sampling at the C ABI with canary/guard-page oracles"),
 }
 NOT_YET = {}
 ALL = ["C%02d" % i for i in range(1, 19)]
